@@ -273,6 +273,8 @@ class Ctx:
         tail = " no-failing-input-found" if no_input else ""
         print(f"VIOLATION property={self.prop} replay={rel}{tail}")
         self.violations.append(rel)
+        if not no_input:
+            self.concrete = getattr(self, "concrete", 0) + 1
         return rel
 
     def report(self, case, symptom, payload):
